@@ -808,8 +808,28 @@ class SymC:
             cc = SymC(S, d).const_complex()
             if cc is not None:
                 return SymB(S, const=((abs(cc) < 1e-12) == (op == "==")))
+            # equality of two angle-valued affine forms f == 0 implies exp(i*f*s) == 1 for every scale s: link the (otherwise
+            # independent) circle atoms of the parameters to the linear relation on the true branch.  The false branch becomes
+            # Not(linear /\ phasor), an over-approximation of f != 0 -- sound for proving.
+            ph = None
+            if a.aff is not None and b.aff is not None and a.aff[1].is_zero() and b.aff[1].is_zero():
+                f = a.aff[0] + b.aff[0].scale(-1)
+                if f.lin and any(nm in S.atoms for nm in f.lin):
+                    dens = [S.Dof(nm) for nm in f.lin]
+                    L = 1
+                    for d_ in dens:
+                        L = _lcm(L, d_)
+                    for sc in (F(1, L), F(2, L), F(4, L), F(1)):
+                        try:
+                            ph = S.phasor(f.scale(sc))
+                            break
+                        except Granularity:
+                            ph = None
             def mk():
                 e = z3.And(S.z3poly(re) == 0, S.z3poly(im) == 0) if im else (S.z3poly(re) == 0)
+                if ph is not None:
+                    pr, pi_ = P.split_complex(ph)
+                    e = z3.And(e, S.z3poly(P.sub(pr, P.ONE)) == 0, S.z3poly(pi_) == 0 if pi_ else z3.BoolVal(True))
                 return e if op == "==" else z3.Not(e)
             return SymB(S, mk)
         if im:
